@@ -313,6 +313,12 @@ def _evaluate(self, obj, ones):
           "PUBOMatrix": utils.pubo_value, "PUSOMatrix": utils.puso_value}[kind]
     vals.append(fn(sol, obj))
     vals.append(fn(sol, dict(obj)))
+    # the smallest legal assignment: exactly the labels the terms mention (a single label 0, '' or () included)
+    need = {x for k in dict.keys(obj) for x in k}
+    small = {l: sol[l] for l in need}
+    vals.append(obj.value(small))
+    vals.append(fn(small, obj))
+    vals.append(fn(small, dict(obj)))
     if kind in ("QUBO", "QUBOMatrix"):
         vals.append(utils.pubo_value(sol, obj))
     if kind in ("QUSO", "QUSOMatrix"):
